@@ -84,9 +84,7 @@ class GBSys:
             if self.sync:
                 # a synchronous group cannot be closed; what closing means is fixed by the specification:
                 # the group yields nothing more.  The twin keeps standing in for everything else.
-                if g == len(self.groups):       # only the newest group can be live; a stale one yields nothing anyway
-                    self.groups[g - 1] = iter(())
-                return ("closed", 0, 0)
+                return ("closed", 0, 0)        # only stale groups are closed (see GroupBy.tla): nothing to emulate
             r = Task(self.groups[g - 1].aclose(), self.rec.acct).run()
             return ("closed", 0, 0) if r[0] == "done" else ("raise:" + type(r[1]).__name__, 0, 0)
         else:
@@ -248,8 +246,8 @@ def random_history(args):
     stops = 0
     for j in range(rnd.randint(5, 25)):
         x = rnd.random()
-        if real.groups and x < 0.1:
-            op, g = "close", rnd.randint(max(1, len(real.groups) - 2), len(real.groups))
+        if len(real.groups) >= 2 and x < 0.1:
+            op, g = "close", rnd.randint(max(1, len(real.groups) - 3), len(real.groups) - 1)     # a group that is stale for sure
         elif real.groups and x < 0.7:
             op, g = "grp", rnd.randint(max(1, len(real.groups) - 2), len(real.groups))
         else:
